@@ -106,6 +106,7 @@ size_t vg_m1, vg_m2, vg_m3;
 #ifndef VERIF_MAX_CTX
 # define VERIF_MAX_CTX 255
 #endif
+/* (units with VERIF_STRLEN_REGISTRY add vg_sreg to their assigns clauses) */
 /* every ghost group, for assigns clauses */
 #define VG_ALL vg_sp, vg_ct, vg_ev, vg_fg, vg_tf, vg_hl, vg_st, vg_lkp
 #define vg_spawned        vg_sp.spawned
@@ -175,6 +176,46 @@ size_t strnlen(const char *s, size_t maxlen)
     size_t r = strlen(s);
     return r < maxlen ? r : maxlen;
 }
+#endif
+
+/* ======================================================================================
+ * 1c. deterministic strlen (units that define VERIF_OWN_STRLEN and VERIF_STRLEN_REGISTRY; SAT)
+ *    Still "SOME NUL position of the argument" (env.h's over-approximation, same ASSUMES), but the
+ *    choice is made deterministic so that two strlen calls on an unchanged buffer agree and the
+ *    destination-size arithmetic of strcpy/strcat chains can be followed without quantifiers:
+ *      1. the empty string has length 0;
+ *      2. a length REGISTERED for exactly this pointer by the stub/model that produced the string
+ *         (strcpy, strcat, snprintf, readdir, the temp_file / safe_strncpy models) is returned as
+ *         long as the byte there is still NUL;
+ *      3. a "tight" string (the object ends with the terminator) has the object's length;
+ *      4. otherwise any NUL position.
+ *    The registry has 8 slots keyed by object number; a collision only loses precision.
+ * ====================================================================================== */
+#if defined(VERIF_OWN_STRLEN) && defined(VERIF_STRLEN_REGISTRY)
+struct { const char *p; size_t n; } vg_sreg[8];
+#define V_SREG_SET(ptr, len) do { unsigned vsi = (unsigned) (__CPROVER_POINTER_OBJECT(ptr) % 8); \
+                                  vg_sreg[vsi].p = (const char *) (ptr); vg_sreg[vsi].n = (len); } while (0)
+size_t strlen(const char *s)
+{
+    __CPROVER_assert(s != NULL, "strlen: argument not NULL");
+    __CPROVER_assert(__CPROVER_r_ok(s, 1), "strlen: argument readable");
+    if (s[0] == 0) return 0;
+    unsigned i = (unsigned) (__CPROVER_POINTER_OBJECT(s) % 8);
+    if (vg_sreg[i].p == s && vg_sreg[i].n < VREMAIN(s) && s[vg_sreg[i].n] == 0) return vg_sreg[i].n;
+    size_t last = VREMAIN(s) - 1;
+    if (s[last] == 0) return last;
+    size_t r = nondet_size_t();
+    __CPROVER_assume(r < VREMAIN(s));
+    __CPROVER_assume(s[r] == 0);
+    return r;
+}
+size_t strnlen(const char *s, size_t maxlen)
+{
+    size_t r = strlen(s);
+    return r < maxlen ? r : maxlen;
+}
+#else
+#define V_SREG_SET(ptr, len) do { } while (0)
 #endif
 
 /* ======================================================================================
@@ -324,7 +365,11 @@ int fclose(FILE *fp)
 {
     /* "stream not NULL" for the file-stack slot vg_k2 (arbitrary): whenever the current top of the
      * file stack is slot vg_k2 the stream must be there.  See contracts/conf.h FSFP_AT. */
+#ifdef VERIF_STREAM_CHECKS_UNGUARDED
+    __CPROVER_assert(fp != NULL, "fclose: stream not NULL");
+#else
     __CPROVER_assert(fstate_idx != vg_k2 || fp != NULL, "fclose: stream not NULL");
+#endif
     vg_open_streams--;
     return nondet_bool() ? 0 : EOF;
 }
@@ -337,9 +382,22 @@ char *fgets(char *buf, int size, FILE *fp)
 {
     __CPROVER_assert(size > 0, "fgets: size positive");
     __CPROVER_assert(__CPROVER_w_ok(buf, (size_t) size), "fgets: buffer holds size bytes");
+#ifdef VERIF_STREAM_CHECKS_UNGUARDED
+    __CPROVER_assert(fp != NULL, "fgets: stream not NULL");
+#else
     __CPROVER_assert(fstate_idx != vg_k2 || fp != NULL, "fgets: stream not NULL");
+#endif
+    /* behaviour splits of the open_file units: the read succeeds / fails */
+#if defined(VERIF_FGETS_ALWAYS_OK)
+    __CPROVER_assume(vg_fg_budget > 0 && size > 1);
+    if (0) {
+#elif defined(VERIF_FGETS_ALWAYS_FAIL)
+    if (1) {
+#else
     if (vg_fg_budget == 0 || size == 1 || nondet_bool()) {
+#endif
         vg_fg_ok = 0;
+        vg_fg_buf = buf;
         vg_fg_mid = 0;
         vg_fg_hdr = 0;
         return (char *) 0;
@@ -423,6 +481,7 @@ struct dirent *readdir(DIR *d)
     __CPROVER_assume(r >= 1 && r < sizeof(v->ent.d_name));     /* names are 1..255 bytes */
     v->ent.d_name[r] = 0;
     vg_dname_len = r;
+    V_SREG_SET(v->ent.d_name, r);
     return &v->ent;
 }
 int closedir(DIR *d)
@@ -507,6 +566,7 @@ char *strcpy(char *d, const char *s)
     /* over-approximation: the whole destination object becomes arbitrary, then the terminator */
     __CPROVER_havoc_object(d);
     d[n] = 0;
+    V_SREG_SET(d, n);
     return d;
 }
 char *strcat(char *d, const char *s)
@@ -517,6 +577,7 @@ char *strcat(char *d, const char *s)
     __CPROVER_assert(__CPROVER_w_ok(d + dl, n + 1), "strcat: destination holds strlen(dest)+strlen(src)+1 bytes");
     __CPROVER_havoc_object(d);
     d[dl + n] = 0;
+    V_SREG_SET(d, dl + n);
     return d;
 }
 char *strncpy(char *d, const char *s, size_t n)
@@ -542,6 +603,7 @@ int v_snprintf(char *d, size_t size, int unused)
     if (size) {
         __CPROVER_havoc_object(d);       /* over-approximation: whole destination object arbitrary */
         d[(size_t) r < size ? (size_t) r : size - 1] = 0;
+        V_SREG_SET(d, (size_t) r < size ? (size_t) r : size - 1);
     }
     return r;
 }
@@ -568,24 +630,16 @@ int v_snprintf(char *d, size_t size, int unused)
 /* ======================================================================================
  * 5c. loop contracts of conf.c (text of the annotation table annot/conf.c.conf.ann)
  * ====================================================================================== */
-/* spifconf_parse (bounded unit C09.parse).  PARSE_INV: contracts/conf.h part 1.
- *  loop 1  for (; fstate_idx > 0;)                               one file per iteration
- *  loop 2  for (; fgets(buff, CONFIG_BUFF, file_peek_fp());)     one chunk per iteration; at a line boundary
- *  loop 3  for (; fgets(...) && !strrchr(buff, '\n'););          rest of an over-long line: mid-line throughout
- * measure: every chunk costs budget; a push (at most one per chunk) is paid by the chunk that caused it */
-#define VCA_PARSE_ASSIGNS \
-    __CPROVER_assigns(__CPROVER_object_whole(buff), spifconf_vars, fstate_idx, __CPROVER_object_whole(fstate), \
-                      vg_sp, vg_ct, vg_ev, vg_fg, vg_tf, vg_st)
-#define VCA_PARSE_L1 VCA_PARSE_ASSIGNS \
-    __CPROVER_loop_invariant(PARSE_INV && vg_pl_calls == vg_deliverable && !vg_fg_mid) \
-    __CPROVER_decreases(2 * vg_fg_budget + fstate_idx)
-#define VCA_PARSE_L2 VCA_PARSE_ASSIGNS \
-    __CPROVER_loop_invariant(PARSE_INV && fstate_idx >= 1 && vg_pl_calls == vg_deliverable && !vg_fg_mid) \
-    __CPROVER_decreases(2 * vg_fg_budget + fstate_idx)
-#define VCA_PARSE_L3 \
-    __CPROVER_assigns(__CPROVER_object_whole(buff), vg_fg) \
-    __CPROVER_loop_invariant(PARSE_INV && fstate_idx >= 1 && vg_pl_calls == vg_deliverable && vg_fg_mid) \
-    __CPROVER_decreases(vg_fg_budget)
+/* builtin_dirscan, loop 1: for (i = 0; (dp = readdir(dirp));)   — buff holds a C string of exactly
+ * CONFIG_BUFF - n characters (n = room left, the terminator included): either it is still empty or the
+ * registry of the deterministic strlen knows its length. */
+#define VCA_DIRSCAN_SLOT (__CPROVER_POINTER_OBJECT(buff) % 8)
+#define VCA_DIRSCAN_LOOP \
+    __CPROVER_assigns(dp, filestat, n, __CPROVER_object_whole(buff), __CPROVER_object_whole(dirp), vg_ct, vg_sreg) \
+    __CPROVER_loop_invariant(n >= 2 && n <= CONFIG_BUFF && __CPROVER_rw_ok(buff, CONFIG_BUFF) && buff[CONFIG_BUFF - n] == 0) \
+    __CPROVER_loop_invariant(n == CONFIG_BUFF || (vg_sreg[VCA_DIRSCAN_SLOT].p == (const char *) buff && vg_sreg[VCA_DIRSCAN_SLOT].n == CONFIG_BUFF - n)) \
+    __CPROVER_loop_invariant(__CPROVER_rw_ok(dirp, sizeof(struct v_dir))) \
+    __CPROVER_decreases(vg_dir_budget)
 
 /* spifconf_find_file, loop 1: for (path = pathlist; path && *path != '\0'; path = p) */
 #define VCA_FIND_FILE_LOOP \
